@@ -101,6 +101,26 @@ func runC12(w *World, r *Report, tier string) {
 		checkExit("xmpp.(*Client).recv#exit:after:"+name, rl.okStart, typeEdgeFilter(rl.pkt, rl.universe[name]), true, nil)
 	}
 	r.Floor("R1", 2)
+	// a path that goes on reading must not already have reported a loss (it would be reported again by the read error)
+	for _, name := range rl.typeNames(rl.universe) {
+		if name == "stanza.StreamError" {
+			continue // a stream error is reported as such, then the loop waits for the close: by design
+		}
+		bad := ""
+		n := 0
+		walkPaths(rl.okStart, rl.isNextPacket, typeEdgeFilter(rl.pkt, rl.universe[name]), 20000, func(path []ssa.Instruction, end pathEnd) {
+			if !rl.isNextPacket(path[len(path)-1]) {
+				return
+			}
+			n++
+			if countOn(path, isEH) > 0 || countOn(path, isDisc) > 0 {
+				bad = fmt.Sprintf("after a %s the loop calls the error handler / announces a disconnection and then goes on reading: the read error that follows reports the same loss a second time", name)
+			}
+		})
+		if n > 0 {
+			r.Check(bad == "", "R1", "xmpp.(*Client).recv#continue:after:"+name, w.pos(fn.Pos()), bad, "no loss report on a path that keeps reading")
+		}
+	}
 
 	// R2
 	deferOK := false
